@@ -308,6 +308,9 @@ inductive Res
   | undef
   | val (n : Num)
   | view (byteOffset length : Nat)
+  | bool (b : Bool)
+  /-- a sequence of element values handed out (to a callback, an iterator, or joined into a string); `none` = undefined -/
+  | vals (xs : List (Option Num))
   deriving Repr
 
 def Res.isOk : Res → Bool
@@ -971,6 +974,158 @@ def opABSlice (s : State) (b : Nat) (start fin : Option IArg) : Res × State :=
     (.view 0 newLen, { r.2 with bufs := r.2.bufs ++ [some r.1] })
   else (.view 0 0, { s with bufs := s.bufs ++ [some []] })
 
+/-! ## reading methods: every element they look at must lie inside the view -/
+
+inductive SearchMode | indexOf | lastIndexOf | includes
+  deriving DecidableEq, Repr
+
+def toDbl? : Num → Option Nat
+  | .int i => some (intToF64 i)
+  | .dbl b => some b
+  | _ => none
+
+def numIsNaN : Num → Bool
+  | .dbl b => f64IsNaN b
+  | _ => false
+
+/-- ECMA-262 IsStrictlyEqual (`svz = false`: indexOf, lastIndexOf) / SameValueZero (`svz = true`: includes) between a
+decoded element and the search value: ±0 are equal, NaN equals NaN only under SameValueZero, BigInt ≠ Number. -/
+def numEq (svz : Bool) (x y : Num) : Bool :=
+  match x, y with
+  | .big a, .big b => a == b
+  | .big _, _ => false
+  | _, .big _ => false
+  | _, _ =>
+    match toDbl? x, toDbl? y with
+    | some a, some b =>
+      if f64IsNaN a || f64IsNaN b then svz && f64IsNaN a && f64IsNaN b
+      else if a % 2 ^ 63 == 0 && b % 2 ^ 63 == 0 then true
+      else a == b
+    | _, _ => false
+
+/-- ascending scan of elements `k, k+1, …` (n of them) -/
+def scanUp (s : State) (v : View) (svz : Bool) (se : Num) (k : Nat) : Nat → Option Nat × State
+  | 0 => (none, s)
+  | n + 1 =>
+    let r := s.readElem v k
+    if numEq svz (decode v.kind r.1) se then (some k, r.2) else scanUp r.2 v svz se (k + 1) n
+
+/-- descending scan of elements `n-1, …, 0` -/
+def scanDown (s : State) (v : View) (se : Num) : Nat → Option Nat × State
+  | 0 => (none, s)
+  | n + 1 =>
+    let r := s.readElem v n
+    if numEq false (decode v.kind r.1) se then (some n, r.2) else scanDown r.2 v se n
+
+/-- builtin_typedarrays.go:774-781 / 714-721: start index of indexOf / includes (`n < length` already known) -/
+def firstFrom (n l : Int) : Int := if n < 0 then max (l + n) 0 else n
+
+/-- builtin_typedarrays.go:860-872: start index of lastIndexOf: `length-1` without a second argument, otherwise
+`min(fromIndex, length-1)` for fromIndex ≥ 0 and `fromIndex + length` (or −1) for a negative one. -/
+def lastFrom (from_ : Option IArg) (l : Int) : Int :=
+  match from_ with
+  | none => l - 1
+  | some a => if a.val ≥ 0 then min a.val (l - 1) else (if a.val + l < 0 then -1 else a.val + l)
+
+def notFound (mode : SearchMode) : Res :=
+  match mode with
+  | .includes => .bool false
+  | _ => .val (.int (-1))
+
+def foundRes (mode : SearchMode) (r : Option Nat) : Res :=
+  match mode, r with
+  | .includes, some _ => .bool true
+  | .includes, none => .bool false
+  | _, some k => .val (.int k)
+  | _, none => .val (.int (-1))
+
+def typeOk (k : Kind) (se : Num) : Bool :=
+  match se with
+  | .big _ => k.isBig
+  | .undef => false
+  | _ => !k.isBig
+
+/-- `typedArrayProto_indexOf` / `_lastIndexOf` / `_includes` (builtin_typedarrays.go:706, 766, 850). -/
+def opSearch (s : State) (vi : Nat) (mode : SearchMode) (se : Num) (from_ : Option IArg) : Res × State :=
+  match s.views[vi]? with
+  | none => (.bad, s)
+  | some v =>
+    if !s.attached v.buf then (.err .type, s) else
+    let l : Int := v.length
+    if l == 0 then (notFound mode, s) else
+    let s := s.applyDet (oDet from_)
+    if mode == .lastIndexOf then
+      let fi := lastFrom from_ l
+      if !s.attached v.buf || numIsNaN se || !typeOk v.kind se then (notFound mode, s) else
+      let r := scanDown s v se (fi + 1).toNat
+      (foundRes mode r.1, r.2)
+    else
+      let n := oVal from_ 0
+      if n ≥ l then (notFound mode, s) else
+      let n' := firstFrom n l
+      if !s.attached v.buf || (mode == .indexOf && numIsNaN se) || !typeOk v.kind se then (notFound mode, s) else
+      let r := scanUp s v (mode == .includes) se n'.toNat (l - n').toNat
+      (foundRes mode r.1, r.2)
+
+/-- builtin_typedarrays.go:752-757: index of `at` -/
+def atIndex (idx l : Int) : Int := if idx < 0 then l + idx else idx
+
+/-- `typedArrayProto_at` (builtin_typedarrays.go:747). -/
+def opAt (s : State) (vi : Nat) (idx : IArg) : Res × State :=
+  match s.views[vi]? with
+  | none => (.bad, s)
+  | some v =>
+    if !s.attached v.buf then (.err .type, s) else
+    let s := s.applyDet idx.det
+    let i := atIndex idx.val v.length
+    if i ≥ (v.length : Int) || i < 0 then (.undef, s) else
+    if !s.attached v.buf then (.undef, s) else
+    let r := s.readElem v i.toNat
+    (.val (decode v.kind r.1), r.2)
+
+/-- what a callback / iterator step sees at index `k`: the element while `isValidIntegerIndex(k)`, else undefined -/
+def visitRead (s : State) (v : View) (k : Nat) : Option Num × State :=
+  if s.attached v.buf then
+    let r := s.readElem v k
+    (some (decode v.kind r.1), r.2)
+  else (none, s)
+
+/-- every / some / find* / forEach / reduce* / values() / entries(): visit the indices in ascending (`bwd = false`) or
+descending order; call number `detAt` detaches `det`. `i` = number of calls made so far. -/
+def visitLoop (s : State) (v : View) (bwd : Bool) (detAt : Nat) (det : List Nat) (i : Nat) :
+    Nat → List (Option Num) → State × List (Option Num)
+  | 0, acc => (s, acc)
+  | n + 1, acc =>
+    let r := visitRead s v (if bwd then n else i)
+    let s := if i == detAt then r.2.applyDet det else r.2
+    visitLoop s v bwd detAt det (i + 1) n (acc ++ [r.1])
+
+def opVisit (s : State) (vi : Nat) (bwd : Bool) (detAt : Nat) (det : List Nat) : Res × State :=
+  match s.views[vi]? with
+  | none => (.bad, s)
+  | some v =>
+    if !s.attached v.buf then (.err .type, s) else
+    let r := visitLoop s v bwd detAt det 0 v.length []
+    (.vals r.2, r.1)
+
+def joinLoop (s : State) (v : View) (k : Nat) : Nat → List (Option Num) → State × List (Option Num)
+  | 0, acc => (s, acc)
+  | n + 1, acc =>
+    let r := visitRead s v k
+    joinLoop r.2 v (k + 1) n (acc ++ [r.1])
+
+/-- `typedArrayProto_join` (builtin_typedarrays.go:802) / toString / toLocaleString: the separator is converted first
+(callback point), then every element that is still a valid index is read. -/
+def opJoin (s : State) (vi : Nat) (det : List Nat) (perElem : Bool := false) : Res × State :=
+  match s.views[vi]? with
+  | none => (.bad, s)
+  | some v =>
+    -- join (804) validates on entry; toLocaleString (1196) only inside its loop, so an empty detached array passes
+    if !s.attached v.buf && !(perElem && v.length == 0) then (.err .type, s) else
+    let s := s.applyDet det
+    let r := joinLoop s v 0 v.length []
+    (.vals r.2, r.1)
+
 /-- any prototype method that does not write to its receiver (indexOf, join, map, every, …; run on the
 implementation side only): the adversary's callback / coercion runs iff the receiver passes the method's entry
 check (`needAttached`) and is long enough for the callback to be invoked (`minLen`). -/
@@ -1007,6 +1162,10 @@ inductive Op
   | map (v : Nat) (sp : Species) (vals : List VArg)
   | of_ (c : Ctor) (vals : List VArg)
   | abSlice (b : Nat) (start fin : Option IArg)
+  | search (v : Nat) (mode : SearchMode) (se : Num) (from_ : Option IArg)
+  | at_ (v : Nat) (idx : IArg)
+  | visit (v : Nat) (bwd : Bool) (detAt : Nat) (det : List Nat)
+  | join (v : Nat) (det : List Nat) (perElem : Bool)
   /-- any read-only prototype method run only on the implementation side (indexOf, join, map, …): the model
   records just the adversary's detaches -/
   | other (v : Nat) (needAttached : Bool) (minLen : Nat) (det : List Nat)
@@ -1036,6 +1195,10 @@ def step (s : State) : Op → Res × State
   | .map v sp vals => opMap s v sp vals
   | .of_ c vals => opOf s c vals
   | .abSlice b st fi => opABSlice s b st fi
+  | .search v m se fr => opSearch s v m se fr
+  | .at_ v i => opAt s v i
+  | .visit v bwd k det => opVisit s v bwd k det
+  | .join v det pe => opJoin s v det pe
   | .other v needAttached minLen det => opOther s v needAttached minLen det
 
 def run (s : State) : List Op → State
